@@ -8,7 +8,7 @@ from zipfile import ZipFile
 import py7zr
 from tqdm import tqdm
 
-ZIP_EXTENSIONS = {'.zip', '.7z', '.tar.gz', '.tgz', '.tar.bz2', '.tbz2'}
+ZIP_EXTENSIONS = {'.zip', '.7z', '.tar', '.tar.gz', '.tgz', '.tar.bz2', '.tbz2'}
 
 
 def parse_archived_filename(archived_fname: str) -> Tuple[str, str, str]:
